@@ -9,7 +9,8 @@ from ..sym import Rat, C
 from ..values import Num, Const, Tup, Term, Obj, P, Val, Fn, arr_param, veq, walk_vals, Ref, fresh_serial
 from ..model import AnalysisError
 from ..rfa_model import Strategy, strategy, SpecEnv, RFA, ADAPT, strip_state
-from ..symeval import Evaluator
+from ..symeval import Evaluator, assume
+from ..truth import tri
 from .common import S, run as runf, need_num, show, REPO_RESULT_KIND, no_sau, SAU
 from . import c06
 from .c05 import WINDOW, _is_y, call_is, unwrap
@@ -113,38 +114,62 @@ def check_adaptive_unitfree(ctx):
     if ev.issues:
         raise AnalysisError(f"C07.3: {fi.qualname} not canonicalisable: {ev.issues[:3]}")
     apps = [e for e in ev.events if e.kind == 'append' and e.loops]
-    ctx.floor('C07.3', len(apps), 8, 'window-table appends inside the interval loop')
+    ctx.floor('C07.3', len(apps), 2, 'window-table appends inside the interval loop')
     is_y = lambda ref: isinstance(ref, Ref) and ref.label == 'Yext'
     is_xr = lambda ref: isinstance(ref, Ref) and ref.label == 'Xext'
+    import itertools
     for e in apps:
-        v = e.data['value']
-        if not isinstance(v, Num):
+        v0 = e.data['value']
+        if not isinstance(v0, Num):
             continue
         k = e.loops[0].sym
         inst = f"append at {e.loc()}"
-        ys = el_atoms(v.r, is_y)
-        for (sa, sb) in ((Fraction(-3, 2), 7), (2, -5)):
-            m = {at: C(sa) * Rat.atom(at) + C(sb) for at in ys}
-            ctx.check(sym.subst(v.r, m) == v.r, 'C07.3', inst + f": value unchanged under y -> {sa}*y+{sb}",
-                      f"{show(v, 300)}", e.loc(), fi.qualname, f"unitfree:{sa}")
-        okx, why = sym.affine_invariant(v.r, lambda t: sym.ATOMS.head(t) == 'el' and is_xr(sym.ATOMS.args(t)[0]))
-        ctx.check(okx, 'C07.2', inst + ': window size unchanged under x -> c*x+d', f"{show(v, 200)}: {why}", e.loc(), fi.qualname, 'x-inv')
-        offs = set()
-        ok = True
-        for at in ys:
-            q = (sym.ATOMS.args(at)[1] - k * n) / n
-            if q.is_const() and q.const_value().denominator == 1:
-                offs.add(int(q.const_value()))
-            else:
-                ok = False
-        ctx.check(ok and offs <= {-1, 0, 1}, 'C07.4', inst + ': entry k reads averages k-1, k, k+1 only', f"offsets {sorted(offs)}", e.loc(), fi.qualname, 'stencil')
-        carried = [t for t in walk_vals(v) if isinstance(t, Term) and t.head in ('loopvar', 'loopstate', 'mutated')]
-        ctx.check(not carried, 'C07.4', inst + ': no loop-carried state', f"{[str(t)[:60] for t in carried[:3]]}", e.loc(), fi.qualname, 'carried')
-        # guards: only zero tests of jumps, reading offsets -1..1
-        for g in e.guard:
-            okg = _jump_zero_test(g, is_y, k, n, is_xr)
-            ctx.check(okg, 'C07.3', inst + ': branch condition is a unit-free zero test of adjacent jumps', str(g)[:200], e.loc(), fi.qualname,
-                      f"guard:{str(g)[:60]}")
+        # branch conditions (statement guards and conditional values alike): only zero tests of adjacent jumps
+        preds = list(e.guard) + [t for t in walk_vals(v0) if isinstance(t, P)]
+        tests = {}
+
+        def leaves(q):
+            if isinstance(q, P) and q.op in ('not', 'and', 'or'):
+                for x_ in q.args:
+                    leaves(x_)
+            elif isinstance(q, P):
+                tests.setdefault(str(q), q)
+        for g in preds:
+            leaves(g)
+        bad = [q for q in tests.values() if not _jump_zero_test(q, is_y, k, n, is_xr)]
+        ctx.check(not bad, 'C07.3', inst + ': every branch condition is a unit-free zero test of adjacent jumps', f"{[str(q)[:120] for q in bad[:3]]}", e.loc(),
+                  fi.qualname, 'guards')
+        if bad or len(tests) > 6:
+            continue
+        keys = sorted(tests)
+        for combo in itertools.product((False, True), repeat=len(keys)):
+            asg = dict(zip(keys, combo))
+            leaf = lambda q: asg.get(str(q))
+            if any(tri(g, leaf) is False for g in e.guard):
+                continue            # the append does not happen in this case
+            v = assume(v0, lambda q: tri(q, leaf))
+            if not isinstance(v, Num):
+                continue
+            case = ', '.join(f"{'' if t else 'not '}{kk[:50]}" for kk, t in asg.items()) or 'unconditional'
+            ys = el_atoms(v.r, is_y)
+            for (sa, sb) in ((Fraction(-3, 2), 7), (2, -5)):
+                m = {at: C(sa) * Rat.atom(at) + C(sb) for at in ys}
+                ctx.check(sym.subst(v.r, m) == v.r, 'C07.3', inst + f" [{case}]: value unchanged under y -> {sa}*y+{sb}",
+                          f"{show(v, 300)}", e.loc(), fi.qualname, f"unitfree:{sa}:{case[:40]}")
+            okx, why = sym.affine_invariant(v.r, lambda t: sym.ATOMS.head(t) == 'el' and is_xr(sym.ATOMS.args(t)[0]))
+            ctx.check(okx, 'C07.2', inst + f" [{case}]: window size unchanged under x -> c*x+d", f"{show(v, 200)}: {why}", e.loc(), fi.qualname, f"x-inv:{case[:40]}")
+            offs = set()
+            ok = True
+            for at in ys:
+                q = (sym.ATOMS.args(at)[1] - k * n) / n
+                if q.is_const() and q.const_value().denominator == 1:
+                    offs.add(int(q.const_value()))
+                else:
+                    ok = False
+            ctx.check(ok and offs <= {-1, 0, 1}, 'C07.4', inst + f" [{case}]: entry k reads averages k-1, k, k+1 only", f"offsets {sorted(offs)}", e.loc(), fi.qualname,
+                      f"stencil:{case[:40]}")
+            carried = [t for t in walk_vals(v) if isinstance(t, Term) and t.head in ('loopvar', 'loopstate', 'mutated')]
+            ctx.check(not carried, 'C07.4', inst + f" [{case}]: no loop-carried state", f"{[str(t)[:60] for t in carried[:3]]}", e.loc(), fi.qualname, f"carried:{case[:40]}")
 
 
 def _jump_zero_test(g, is_y, k, n, is_x=None) -> bool:
